@@ -48,7 +48,7 @@ Pk(t, id, tag, dup, qos) == [t |-> t, id |-> id, tag |-> tag, dup |-> dup, qos |
 NoPk == Pk("none", 0, 0, FALSE, 0)
 NewConn == [c2b |-> <<>>, tail |-> FALSE, taken |-> 0, b2c |-> <<>>, closed |-> FALSE, dead |-> FALSE, eof |-> FALSE]
 Loc0 == [op |-> 1, prev |-> NILCONN, conn |-> NILCONN, err |-> "", lvl |-> 0, seqNo |-> 0, ctx |-> "", after |-> "",
-         inline |-> FALSE, backlog |-> FALSE, herr |-> FALSE, val |-> 0, slot |-> FALSE]
+         inline |-> FALSE, backlog |-> FALSE, herr |-> FALSE, val |-> 0, slot |-> FALSE, who |-> ""]
 
 Has(f, k) == k \in DOMAIN f
 Put(f, k, v) == (k :> v) @@ f
@@ -65,6 +65,9 @@ St0 ==
    ctxDone |-> FALSE, online |-> FALSE, offline |-> TRUE,
    pingSlot |-> "",                          \* process whose Ping waits, "" = free
    pong |-> [p \in Writers |-> "none"],      \* what a waiting Ping received on its done channel
+   subs |-> <<>>,                            \* [packet identifier -> requesting process] pending SUBSCRIBE transactions
+   subdone |-> [p \in Writers |-> "none"],   \* what a waiting Subscribe received on its done channel
+   utxN |-> 0,                               \* unorderedTxs.n
    store |-> <<>>, conns |-> <<>>,
    broker |-> [session |-> FALSE, awaiting |-> {}, delivered |-> <<>>],
    exch |-> <<>>, rets |-> [p \in Procs |-> <<>>],
@@ -97,6 +100,11 @@ PayR(s, c, o) == IF o = "err" /\ ~s.conns[c].dead THEN Spend(s, "read") ELSE s
 StoreOutcomes(s) == {"ok"} \cup (IF s.budget.store > 0 THEN {"err"} ELSE {})
 PayS(s, o) == IF o = "err" THEN Spend(s, "store") ELSE s
 
+\* an API call of a scripted process returns: on to its next operation
+NextOp(s, p, m, e) ==
+  LET r == RetP(s, p, m, e) IN
+  IF s.loc[p].op < Len(Script[p]) THEN [G(r, p, "call") EXCEPT !.loc[p].op = @ + 1] ELSE G(r, p, "idle")
+
 (* ----------------------------------------------------------------------- *)
 (* The read routine                                                        *)
 
@@ -111,8 +119,12 @@ Dispatch(s, buf) ==
       [] p.t = "PUBCOMP" -> IF p.id = KeyOf(2, s.completed) /\ s.completed < s.received /\ s.queue[2] # <<>> THEN "m.del" ELSE "off.sel"
       [] p.t = "PUBREL" -> "l.del"
       [] p.t = "PINGRESP" -> "r.pong"
+      [] p.t = "SUBACK" -> "r.suback"
       [] OTHER -> "off.sel"
 
+\* unorderedTxs.breakAll: every pending subscribe transaction receives ErrBreak
+BreakAll(s) == [s EXCEPT !.subdone = [p \in Writers |-> IF \E i \in DOMAIN s.subs : s.subs[i] = p THEN "break" ELSE s.subdone[p]],
+                         !.subs = <<>>]
 \* "off.sel" is the select at the start of toOffline; err/after say what follows it
 ToOff(s, e) == [G(s, "rd", "off.sel") EXCEPT !.loc["rd"].err = e, !.loc["rd"].after = "ret"]
 \* continue the packet loop after the head packet was handled
@@ -266,7 +278,7 @@ RdMoves(s) ==
          {Mv([G(s, "rd", "wn.take") EXCEPT !.store = Del(@, MarkFlag + p.id), !.pack = Pk("PUBCOMP", p.id, 0, FALSE, 0),
                                             !.loc["rd"].ctx = "pubcomp"], "store.Delete", "ok")}
          \cup (IF s.budget.store > 0 THEN {Mv(ToOff(Spend(s, "store"), "store"), "store.Delete", "err")} ELSE {})
-    [] at = "pong.slot" -> {Mv(NextPacket(s), "pong.slot", "ok")}
+    [] at = "pong.slot" -> {Mv(NextPacket([s EXCEPT !.pong[L.who] = "ok"]), "pong.slot", "ok")}   \* close(ack)
     (* --- toOffline --------------------------------------------------------- *)
     [] at = "off.lock" ->
          IF L.val = CLOSED THEN {Mv(G(s, "rd", "off.end"), "off.lock", "ok")}
@@ -281,12 +293,12 @@ RdMoves(s) ==
     [] at = "off.sigmid" -> {Mv([G(s, "rd", "off.unlock") EXCEPT !.offline = TRUE, !.writeSem = PENDING], "off.sigmid", "ok")}
     [] at = "off.unlock" ->
          LET s1 == [s EXCEPT !.readConn = NILCONN, !.inbuf = <<>>] IN
-         IF s.pingSlot # "" THEN {Mv([G(s1, "rd", "off.ping") EXCEPT !.loc["rd"].slot = TRUE], "off.unlock", "ok")}
-         ELSE {Mv(G(s1, "rd", "off.end"), "off.unlock", "ok")}
-    [] at = "off.ping" -> {Mv([G(s, "rd", "off.end") EXCEPT !.pong[s.pingSlot] = "break", !.pingSlot = ""], "off.ping", "ok")}
+         IF s.pingSlot # "" THEN {Mv([G(s1, "rd", "off.ping") EXCEPT !.loc["rd"].who = s.pingSlot, !.pingSlot = ""], "off.unlock", "ok")}
+         ELSE {Mv(G(BreakAll(s1), "rd", "off.end"), "off.unlock", "ok")}
+    [] at = "off.ping" -> {Mv([G(BreakAll(s), "rd", "off.end") EXCEPT !.pong[L.who] = "break"], "off.ping", "ok")}
     [] at = "term.ping" ->
-         LET s1 == [s EXCEPT !.pong[s.pingSlot] = "break", !.pingSlot = ""] IN
-         {Mv(G(s1, "rd", IF s.termLeft = 0 THEN "idle" ELSE "t.join"), "term.ping", "ok")}
+         LET s1 == [s EXCEPT !.pong[L.who] = "break"] IN
+         {Mv(IF s.termLeft = 0 THEN G(BreakAll(s1), "rd", "idle") ELSE G(s1, "rd", "t.join"), "term.ping", "ok")}
     [] OTHER -> {}
 
 (* Labels that are not gates are resolved at once: a move that ends in one *)
@@ -302,7 +314,11 @@ Settle(s) ==
              s1 == IF p.qos = 1 THEN [s EXCEPT !.pack = Pk("PUBACK", p.id, 0, FALSE, 0)] ELSE s
          IN [ok |-> TRUE, s |-> [G(RetP(s1, "rd", "ReadSlices", "msg"), "rd", "call") EXCEPT !.loc["rd"].ctx = "returned"]]
     [] at = "r.pong" ->    \* PINGRESP: a waiting Ping is released (hook pong.slot), else tolerated
-         IF s.pingSlot # "" THEN [ok |-> TRUE, s |-> [G(s, "rd", "pong.slot") EXCEPT !.pong[s.pingSlot] = "ok", !.pingSlot = ""]]
+         IF s.pingSlot # "" THEN [ok |-> TRUE, s |-> [G(s, "rd", "pong.slot") EXCEPT !.loc["rd"].who = s.pingSlot, !.pingSlot = ""]]
+         ELSE [ok |-> TRUE, s |-> NextPacket(s)]
+    [] at = "r.suback" ->  \* SUBACK: the pending transaction (if any) is completed; unknown identifiers are tolerated
+         LET p == s.inbuf[1] IN
+         IF Has(s.subs, p.id) THEN [ok |-> TRUE, s |-> NextPacket([s EXCEPT !.subdone[s.subs[p.id]] = "ok", !.subs = Del(@, p.id)])]
          ELSE [ok |-> TRUE, s |-> NextPacket(s)]
     [] at = "off.sel" ->   \* select { case <-c.writeSem: ... default: ... }
          IF s.writeSem = HELD THEN [ok |-> TRUE, s |-> G(s, "rd", "off.nolock")]
@@ -318,10 +334,11 @@ Settle(s) ==
          ELSE [ok |-> TRUE, s |-> RdReturn(s, L.err)]
     [] at = "t.spawn" ->   \* termCallbacks: two helpers start; the ping slot is emptied; wg.Wait
          LET s1 == [s EXCEPT !.pc["term1"] = "t.wait", !.pc["term2"] = "t.wait"] IN
-         [ok |-> TRUE, s |-> G(s1, "rd", IF s.pingSlot # "" THEN "term.ping" ELSE "t.join")]
+         IF s.pingSlot # "" THEN [ok |-> TRUE, s |-> [G(s1, "rd", "term.ping") EXCEPT !.loc["rd"].who = s.pingSlot, !.pingSlot = ""]]
+         ELSE [ok |-> TRUE, s |-> G(s1, "rd", "t.join")]
     [] OTHER -> [ok |-> TRUE, s |-> s]
 
-TransientRd == {"wn.take", "r.ret", "r.pong", "off.sel", "off.end", "t.spawn"}
+TransientRd == {"wn.take", "r.ret", "r.pong", "r.suback", "off.sel", "off.end", "t.spawn"}
 RECURSIVE SettleAll(_)
 SettleAll(s) == IF s.pc["rd"] \in TransientRd
                 THEN LET r == Settle(s) IN IF r.ok THEN (IF r.s.pc["rd"] = s.pc["rd"] /\ r.s = s THEN [ok |-> TRUE, s |-> s] ELSE SettleAll(r.s)) ELSE r
@@ -332,7 +349,7 @@ SettleAll(s) == IF s.pc["rd"] \in TransientRd
 
 \* a helper finished: the caller (blocked in wg.Wait, then breakAll) returns ErrClosed once both are done
 TermDone(s) == LET s1 == [s EXCEPT !.termLeft = @ - 1] IN
-               IF s1.termLeft = 0 /\ s1.pc["rd"] = "t.join" THEN G(s1, "rd", "idle") ELSE s1
+               IF s1.termLeft = 0 /\ s1.pc["rd"] = "t.join" THEN G(BreakAll(s1), "rd", "idle") ELSE s1
 
 TermMoves(s, p) ==
   LET l == IF p = "term1" THEN 1 ELSE 2  at == s.pc[p]  site == IF l = 1 THEN "term.seq1" ELSE "term.seq2" IN
@@ -352,10 +369,6 @@ TermWake(s) ==
 
 (* ----------------------------------------------------------------------- *)
 (* Persisted publishers: PublishAtLeastOnce / PublishExactlyOnce           *)
-
-NextOp(s, p, m, e) ==
-  LET r == RetP(s, p, m, e) IN
-  IF s.loc[p].op < Len(Script[p]) THEN [G(r, p, "call") EXCEPT !.loc[p].op = @ + 1] ELSE G(r, p, "idle")
 
 PubMoves(s, p) ==
   LET L == s.loc[p]  op == Script[p][L.op]  l == LevelOf(op.m)  at == s.pc[p]  tag == op.tag IN
@@ -393,6 +406,75 @@ PubMoves(s, p) ==
     [] at = "w.fail" -> {Mv([G(ExErr(s, tag, "submit"), p, "q.unseq") EXCEPT !.seqSem[l] = "free"], "w.fail", "ok")}
     [] at = "q.unseq" -> {Mv(NextOp(s, p, op.m, L.err), "q.unseq", "ok")}
     [] OTHER -> {}
+
+
+(* ----------------------------------------------------------------------- *)
+(* Requests through lockWrite: Publish (at most once), Ping, Subscribe     *)
+
+\* lockWrite's select: the write semaphore (quit channels are nil in the model)
+LwSelect(s, p) ==
+  IF s.writeSem = HELD THEN {}
+  ELSE {[G(s, p, "lw.got") EXCEPT !.writeSem = IF s.writeSem = CLOSED THEN CLOSED ELSE HELD, !.loc[p].val = s.writeSem]}
+
+ReqPacket(s, p, op) ==
+  CASE op.m = "Ping" -> Pk("PINGREQ", 0, 0, FALSE, 0)
+    [] op.m = "Subscribe" -> Pk("SUBSCRIBE", s.loc[p].seqNo, 0, FALSE, 0)
+    [] OTHER -> Pk("PUBLISH", 0, op.tag, FALSE, 0)
+
+\* the request failed before or during submission: release what it held, return
+ReqFail(s, p, op, e) ==
+  CASE op.m = "Ping" -> [G(IF s.pingSlot = p THEN [s EXCEPT !.pingSlot = ""] ELSE s, p, "ping.clean") EXCEPT !.loc[p].err = e]
+    [] op.m = "Subscribe" -> NextOp([s EXCEPT !.subs = Del(@, s.loc[p].seqNo)], p, op.m, e)
+    [] OTHER -> NextOp(s, p, op.m, e)
+
+ReqMoves(s, p) ==
+  LET L == s.loc[p]  op == Script[p][L.op]  at == s.pc[p] IN
+  CASE at = "call" ->
+         IF op.m = "Ping" THEN
+           IF s.ctxDone THEN {Mv(NextOp(s, p, op.m, "closed"), op.m, "ok")}
+           ELSE IF s.pingSlot = "" THEN {Mv([G(s, p, "ping.slot") EXCEPT !.pingSlot = p, !.pong[p] = "none"], op.m, "ok")}
+           ELSE {Mv(G(s, p, "ping.max"), op.m, "ok")}
+         ELSE IF op.m = "Subscribe" THEN
+           \* startTx, then lockWrite
+           LET id == 24576 + (s.utxN % 8192)
+               s1 == [s EXCEPT !.utxN = @ + 1, !.subs = Put(@, id, p), !.subdone[p] = "none", !.loc[p].seqNo = id]
+           IN {Mv(x, op.m, "ok") : x \in LwSelect(s1, p)}
+         ELSE {Mv(x, op.m, "ok") : x \in LwSelect(s, p)}
+    [] at = "ping.slot" -> {Mv(x, "ping.slot", "ok") : x \in LwSelect(s, p)}
+    [] at = "ping.max" -> {Mv(NextOp(s, p, op.m, "max"), "ping.max", "ok")}
+    [] at = "lw.got" ->
+         IF L.val = CLOSED THEN {Mv(ReqFail(s, p, op, "closed"), "lw.got", "ok")}
+         ELSE IF L.val = DOWN THEN {Mv(ReqFail([s EXCEPT !.writeSem = DOWN], p, op, "down"), "lw.got", "ok")}
+         ELSE IF L.val = PENDING THEN {Mv(G([s EXCEPT !.writeSem = PENDING], p, "lw.wait"), "lw.got", "ok")}
+         ELSE {Mv(G(s, p, IF op.m = "Publish" THEN "lw.write1" ELSE "lw.write"), "lw.got", "ok")}
+    [] at = "lw.wait" ->   \* select { ctx.Done ; Online ; 20 ms tick }
+         \* with the context cancelled Go chooses among the ready cases: ctx.Done, and the ticker once 20 ms have passed
+         (IF s.ctxDone THEN {Mv(ReqFail(s, p, op, "closed"), "lw.wait", "ok")} ELSE {})
+         \cup {Mv(G(s, p, "lw.woke"), "lw.wait", "ok")}
+    [] at = "lw.woke" -> {Mv(x, "lw.woke", "ok") : x \in LwSelect(s, p)}
+    [] at = "lw.write1" -> \* header buffer of the vectored write (Publish)
+         LET w == L.val IN
+         {IF o = "ok" THEN Mv([G(s, p, "lw.write") EXCEPT !.conns[w].tail = TRUE], "conn.Write", o)
+          ELSE Mv([G(CloseC(PayW(s, w, o), w), p, "w.fail") EXCEPT !.writeSem = PENDING], "conn.Write", o)
+          : o \in WriteOutcomes(s, w)}
+    [] at = "lw.write" ->
+         LET w == L.val IN
+         {IF o = "ok" THEN Mv([G(s, p, "w.ok") EXCEPT !.conns[w].c2b = Append(@, ReqPacket(s, p, op)), !.conns[w].tail = FALSE, !.writeSem = w], "conn.Write", o)
+          ELSE Mv([G(CloseC(PayW(s, w, o), w), p, "w.fail") EXCEPT !.writeSem = PENDING], "conn.Write", o)
+          : o \in WriteOutcomes(s, w)}
+    [] at = "w.fail" -> {Mv(ReqFail(s, p, op, "submit"), "w.fail", "ok")}
+    [] at = "ping.clean" -> {Mv(NextOp(s, p, op.m, L.err), "ping.clean", "ok")}
+    [] at = "w.ok" ->
+         IF op.m = "Publish" THEN {Mv(NextOp(s, p, op.m, ""), "w.ok", "ok")}
+         ELSE {Mv(G(s, p, "req.wait"), "w.ok", "ok")}   \* blocked until the response (or a break) arrives; no gate here
+    [] at = "ping.done" -> {Mv(NextOp([s EXCEPT !.pong[p] = "none"], p, op.m, IF s.pong[p] = "ok" THEN "" ELSE "break"), "ping.done", "ok")}
+    [] at = "sub.done" -> {Mv(NextOp([s EXCEPT !.subdone[p] = "none"], p, op.m, IF s.subdone[p] = "ok" THEN "" ELSE "break"), "sub.done", "ok")}
+    [] OTHER -> {}
+
+\* a waiting request wakes up on its own when its done channel is served (hook ping.done / sub.done follows)
+ReqWake(s) ==
+  {G(s, p, IF Script[p][s.loc[p].op].m = "Ping" THEN "ping.done" ELSE "sub.done")
+   : p \in {q \in Writers : s.pc[q] = "req.wait" /\ (IF Script[q][s.loc[q].op].m = "Ping" THEN s.pong[q] # "none" ELSE s.subdone[q] # "none")}}
 
 (* ----------------------------------------------------------------------- *)
 (* Close                                                                   *)
@@ -454,6 +536,7 @@ BrokerReact(s, c) ==
             ELSE [reply(<<Pk("PUBREC", p.id, 0, FALSE, 0)>>) EXCEPT !.broker.awaiting = @ \cup {p.id}, !.broker.delivered = Append(@, p.tag)]
        [] p.t = "PUBREL" -> [reply(<<Pk("PUBCOMP", p.id, 0, FALSE, 0)>>) EXCEPT !.broker.awaiting = @ \ {p.id}]
        [] p.t = "PINGREQ" -> reply(<<Pk("PINGRESP", 0, 0, FALSE, 0)>>)
+       [] p.t = "SUBSCRIBE" -> reply(<<Pk("SUBACK", p.id, 0, FALSE, 0)>>)
        [] OTHER -> reply(<<>>)
 
 BrokerMoves(s) ==
@@ -467,6 +550,7 @@ MovesOf(s, p) ==
   ELSE IF p \in {"term1", "term2"} THEN TermMoves(s, p)
   ELSE IF s.pc[p] = "idle" THEN {}
   ELSE IF Script[p][s.loc[p].op].m = "Close" THEN CloseMoves(s, p)
+  ELSE IF Script[p][s.loc[p].op].m \in {"Publish", "Ping", "Subscribe"} THEN ReqMoves(s, p)
   ELSE PubMoves(s, p)
 
 \* a move of p, settled to the next gate of the read routine where needed
@@ -478,7 +562,7 @@ ProcStep(p) ==
   \E mv \in MovesOf(st, p) : \E m2 \in Settled(mv) :
      /\ st' = m2.s
      /\ hist' = Append(hist, [p |-> p, at |-> m2.at, o |-> m2.o])
-Wake == \E s2 \in TermWake(st) : st' = s2 /\ UNCHANGED hist
+Wake == \E s2 \in TermWake(st) \cup ReqWake(st) : st' = s2 /\ UNCHANGED hist
 BrokerStep == \E b \in BrokerMoves(st) : st' = b.s /\ hist' = Append(hist, [env |-> "brecv", c |-> b.c, respond |-> TRUE])
 
 Next == (\E p \in Procs : ProcStep(p)) \/ Wake \/ BrokerStep
